@@ -274,6 +274,8 @@ class Interp:
         if isinstance(slf, list) and getattr(f, "__name__", "") == "sort" and any(isinstance(x, SV) for x in slf):
             return self.sort_network(slf, kwargs)
         if any(contains_sym(a) for a in args) or any(contains_sym(a) for a in kwargs.values()):
+            if isinstance(slf, str) and getattr(f, "__name__", "") == "format":
+                return "<sym>"          # message text only (error messages, console output)
             if not _transparent(f):
                 raise Unsupported(f"native call {_fname(f)} with symbolic argument has no model")
         try:
